@@ -29,6 +29,8 @@ def value_kinds():
         "mixed": [0, "", {"k": ()}, {"k": ()}],
         "eqobj": [EqObj(1), EqObj(2), EqObj(3), EqObj(3)],
         "falsy": [None, "", 0, 0.0],
+        # an OpCode next to plain values: looking a plain value up compares it with the OpCode on the way
+        "mixedop": [opc.OpCode("A", 1, {}), 7, (1, 2), tuple([1, 2])],
     }
 
 
@@ -141,7 +143,7 @@ def run(chk, replay=None):
     depth = 3 if chk.quick else 4
     inits = [[], [("a", 3), ("_b", 4)], [("_b", 4), ("a", 3)], [("a", 1), ("_b", 1)]]
     n_hist = 0
-    for kind in (("int", "dict", "opcode") if chk.quick else sorted(kinds)):
+    for kind in (("int", "dict", "opcode", "mixedop") if chk.quick else sorted(kinds)):
         for init in inits if init_ok(kinds[kind]) else inits:
             for n in range(1, depth + 1):
                 prod = itertools.product(alpha, repeat=n)
